@@ -177,20 +177,11 @@ fn input_bytes(i: &Input) -> usize {
 // ---------------------------------------------------------------------------
 // worker
 
-fn iteration_bound_sink(limit_slack: usize) {
-    // panics (caught by the guard) when the resolution loop runs more iterations
-    // than unresolved items + 1
-    let first = Cell::new(0usize);
-    pyxis::verif::set_sink(Some(Box::new(move |e| {
-        if let pyxis::verif::Event::IterationStart { n, worklist } = e {
-            if n == 1 {
-                first.set(worklist.len());
-            }
-            if n > first.get() + 1 + limit_slack {
-                panic!("ITERATION-BOUND-EXCEEDED: iteration {n} with {} unresolved items at the start", first.get());
-            }
-        }
-    })));
+fn iteration_bound_sink(_limit_slack: usize) {
+    // panics (caught by the guard) when the resolution loop runs more iterations than
+    // unresolved items + generated vftable structs + 1
+    let mut bound = drive::IterationBound::default();
+    pyxis::verif::set_sink(Some(Box::new(move |e| bound.observe(&e))));
 }
 
 fn run_one(input: &Input) -> Value {
